@@ -147,13 +147,25 @@ def text(node: ast.AST) -> str:
     return "".join(ast.unparse(node).split())
 
 
+def _norm_src(s: str) -> str:
+    """Normalise a source fragment the same way `text` normalises nodes (so that
+    quoting style and redundant parentheses do not matter)."""
+    try:
+        return "".join(ast.unparse(ast.parse(s)).split())
+    except SyntaxError:
+        try:
+            return "".join(ast.unparse(ast.parse(s, mode="eval")).split())
+        except SyntaxError:
+            return "".join(s.split())
+
+
 def stmt_text_is(s: str) -> Callable[[ast.stmt], bool]:
-    key = "".join(s.split())
+    key = _norm_src(s)
     return lambda st: text(st) == key
 
 
 def stmt_contains(s: str) -> Callable[[ast.stmt], bool]:
-    key = "".join(s.split())
+    key = _norm_src(s)
     return lambda st: not isinstance(st, (ast.If, ast.For, ast.While, ast.With, ast.Try, ast.FunctionDef, ast.ClassDef)) and key in text(st)
 
 
@@ -201,8 +213,8 @@ def hoist(relpath: str, defpath: str, stmt_contains_text: str, sub_text: str, tm
     """Hoist the sub-expression with text `sub_text` of the first statement
     containing `stmt_contains_text` into a fresh local `tmp` defined just
     before."""
-    skey = "".join(stmt_contains_text.split())
-    ekey = "".join(sub_text.split())
+    skey = _norm_src(stmt_contains_text)
+    ekey = _norm_src(sub_text)
 
     def fn(node, tree):
         def pred(st):
@@ -230,7 +242,7 @@ def hoist(relpath: str, defpath: str, stmt_contains_text: str, sub_text: str, tm
 
 
 def insert_before(relpath: str, defpath: str, stmt_contains_text: str, new_src: str):
-    skey = "".join(stmt_contains_text.split())
+    skey = _norm_src(stmt_contains_text)
 
     def fn(node, tree):
         return replace_in_body(node, stmt_contains(skey), lambda st: parse_stmts(new_src) + [st])
@@ -239,7 +251,7 @@ def insert_before(relpath: str, defpath: str, stmt_contains_text: str, new_src: 
 
 
 def insert_after(relpath: str, defpath: str, stmt_contains_text: str, new_src: str):
-    skey = "".join(stmt_contains_text.split())
+    skey = _norm_src(stmt_contains_text)
 
     def fn(node, tree):
         return replace_in_body(node, stmt_contains(skey), lambda st: [st] + parse_stmts(new_src))
@@ -248,7 +260,7 @@ def insert_after(relpath: str, defpath: str, stmt_contains_text: str, new_src: s
 
 
 def delete_stmt(relpath: str, defpath: str, stmt_contains_text: str):
-    skey = "".join(stmt_contains_text.split())
+    skey = _norm_src(stmt_contains_text)
 
     def fn(node, tree):
         return replace_in_body(node, stmt_contains(skey), lambda st: [])
@@ -257,7 +269,7 @@ def delete_stmt(relpath: str, defpath: str, stmt_contains_text: str):
 
 
 def replace_stmt(relpath: str, defpath: str, stmt_contains_text: str, new_src: str):
-    skey = "".join(stmt_contains_text.split())
+    skey = _norm_src(stmt_contains_text)
 
     def fn(node, tree):
         return replace_in_body(node, stmt_contains(skey), lambda st: parse_stmts(new_src))
@@ -268,7 +280,7 @@ def replace_stmt(relpath: str, defpath: str, stmt_contains_text: str, new_src: s
 def replace_expr(relpath: str, defpath: Optional[str], old_expr: str, new_expr: str, nth: int = 0):
     """Replace the nth (0-based) sub-expression whose normalised text equals
     old_expr."""
-    okey = "".join(old_expr.split())
+    okey = _norm_src(old_expr)
 
     def fn(node, tree):
         count = [0]
@@ -280,5 +292,39 @@ def replace_expr(relpath: str, defpath: Optional[str], old_expr: str, new_expr: 
             return False
 
         return rewrite_expr(node, p, lambda n: parse_expr(new_expr))
+
+    return edit(relpath, defpath, fn)
+
+
+def replace_if(relpath: str, defpath: str, test_text: str, new_src: str, nth: int = 0):
+    """Replace the nth `if` statement whose test has the given text by new_src."""
+    key = _norm_src(test_text)
+
+    def fn(node, tree):
+        count = [0]
+
+        def pred(st):
+            if isinstance(st, ast.If) and text(st.test) == key:
+                count[0] += 1
+                return count[0] - 1 == nth
+            return False
+
+        return replace_in_body(node, pred, lambda st: parse_stmts(new_src))
+
+    return edit(relpath, defpath, fn)
+
+
+def set_keyword(relpath: str, defpath: str, call_contains: str, kw: str, new_value_src: str):
+    """Set keyword `kw` of the first call whose text contains call_contains."""
+    key = _norm_src(call_contains)
+
+    def fn(node, tree):
+        for c in ast.walk(node):
+            if isinstance(c, ast.Call) and key in text(c):
+                for k in c.keywords:
+                    if k.arg == kw:
+                        k.value = parse_expr(new_value_src)
+                        return True
+        return False
 
     return edit(relpath, defpath, fn)
